@@ -30,7 +30,7 @@ RULE = (
     "quadrant of est yaw, quadrant of gt yaw, |d| bucket)"
 )
 ASSUMPTIONS = ["roll and pitch <= 0.05 rad; for tilted boxes the yaw is convention dependent to second order, tolerance 2*tilt^2", "yaw-only boxes: weight tolerance 1e-9, error tolerance 1e-9"]
-DECIDING = ["TPMetricsAph.get_value.checked", "get_heading_error.checked", "C09.negative_yaw_ego_pairs", "C09.sign_checked", "C09.frame_checked", "C09.symmetry_checked", "C09.derived_checked", "C09.result_object_checked", "C09.label_policy_checked", "C09.ap_tp_lists_checked"]
+DECIDING = ["TPMetricsAph.get_value.checked", "get_heading_error.checked", "C09.negative_yaw_ego_pairs", "C09.sign_checked", "C09.frame_checked", "C09.symmetry_checked", "C09.derived_checked", "C09.result_object_checked", "C09.label_policy_checked", "C09.ap_tp_lists_checked", "C09.polygon_shapes_checked"]
 JOBS = {"quick": 2, "thorough": 14}
 
 
@@ -184,6 +184,22 @@ def one(ctx: Ctx, workload: str, idx: int, ye: float, yg: float, ego_yaws, roll:
         w_l = APH.get_value(DynamicObjectWithPerceptionResult(e_l, g0, policy))
         ctx.count("C09.label_policy_checked")
         ctx.check(close(w_l, base, tol, 0), "C09/aph_weight_depends_on_labels_of_a_compatible_pair", dict(est_yaw=ye, gt_yaw=yg, est_label=lab, policy=str(policy.value), same_label=base, other_label=w_l), "TPMetricsAph.get_value")
+    # ... nor on how the footprint is represented: the same objects with POLYGON shapes (outline given explicitly)
+    if idx % 3 == 0:
+        from perception_eval.common.shape import Shape, ShapeType
+        from shapely.geometry import Polygon
+
+        def as_polygon(o):
+            import copy as _copy
+
+            w, l, h = o.state.size
+            o2 = _copy.deepcopy(o)
+            o2.state.shape = Shape(ShapeType.POLYGON, (w, l, h), Polygon([(l / 2, w / 2, 0), (-l / 2, w / 2, 0), (-l / 2, -w / 2, 0), (l / 2, -w / 2, 0), (l / 2, w / 2, 0)]))
+            return o2
+
+        for ep, gp in ((as_polygon(e0), g0), (e0, as_polygon(g0)), (as_polygon(e0), as_polygon(g0))):
+            ctx.count("C09.polygon_shapes_checked")
+            ctx.check(close(weight(ep, gp), base, tol, 0), "C09/aph_weight_depends_on_shape_representation", dict(est_yaw=ye, gt_yaw=yg, box_pair=base, with_polygon=weight(ep, gp)), "TPMetricsAph.get_value")
     # the error a result object reports is that of its own pair (estimate against its ground truth)
     rep = DynamicObjectWithPerceptionResult(e0, g0).heading_error
     own = e0.get_heading_error(g0)
